@@ -104,11 +104,20 @@ def run_case(case):
     ctx0 = f"cell={zoo.cell_name(cell)} dt={dt} t0={t0} T={T} steps={nsteps} float32_bm={bm_f32}"
     for cuts in cutsets:
         bm = new_bm()
+        # one options dict OBJECT for all chunk calls of a run (what a user's loop does); it must come back unchanged
+        okw = {}
+        if cell.get("options"):
+            shared_options = dict(cell["options"])
+            okw = {"options_obj": shared_options}
         bounds = [0] + list(cuts) + [nsteps]
         y, extra = y0, None
         for a, b in zip(bounds[:-1], bounds[1:]):
             tsc = torch.stack([torch.as_tensor(grid[a], dtype=ts.dtype), torch.as_tensor(grid[b], dtype=ts.dtype)])
-            ys, extra = zoo.solve(cell, sde, y, tsc, dt, bm=bm, extra=True, extra_solver_state=extra, **akw)
+            ys, extra = zoo.solve(cell, sde, y, tsc, dt, bm=bm, extra=True, extra_solver_state=extra, **akw, **okw)
+            if okw and shared_options != dict(cell["options"]):
+                viol.append({"mechanism": "caller_options_dict_modified",
+                             "detail": f"options {cell['options']} -> {shared_options} {ctx0}"})
+                break
             ys, extra = det(ys), tuple(det(e) for e in extra)
             y = ys[-1]
         cnt["chunked_runs"] = cnt.get("chunked_runs", 0) + 1
